@@ -54,6 +54,16 @@ impl SDJWTVerifier {
         expected_nonce: Option<String>,
         serialization_format: SDJWTSerializationFormat,
     ) -> Result<Self> {
+        #[cfg(sdjwt_verif)]
+        let verif_call = crate::verif_trace::begin(
+            "verifier.new",
+            serde_json::json!({
+                "input": sd_jwt_presentation,
+                "aud": expected_aud,
+                "nonce": expected_nonce,
+                "format": serialization_format.to_string(),
+            }),
+        );
         let mut verifier = SDJWTVerifier {
             sd_jwt_payload: serde_json::Map::new(),
             _holder_public_key_payload: None,
@@ -91,6 +101,8 @@ impl SDJWTVerifier {
             ));
         }
 
+        #[cfg(sdjwt_verif)]
+        crate::verif_trace::end(verif_call, "verifier.new", verifier.verified_claims.clone());
         Ok(verifier)
     }
 
